@@ -980,6 +980,11 @@ func (p *Parser) parseTableExpr(toplevel bool) ast.TableExpr {
 				p.nextToken()
 				method = ast.LookupJoinMethod
 				needJoin = true
+			case p.Token.Kind == "LOOKUP":
+				// LOOKUP is a reserved keyword, so it is never an identifier token.
+				p.nextToken()
+				method = ast.LookupJoinMethod
+				needJoin = true
 			}
 		}
 
